@@ -802,6 +802,7 @@ func runC09(r *core.Run) {
 			r.Violate("built-permissions", fmt.Sprintf("%s: %o", m.key(), n.Permissions()), nil)
 		}
 	}
+	c09SizeSweep(r)
 	c09BuilderRoutes(r)
 }
 
@@ -809,6 +810,58 @@ func runC09(r *core.Run) {
 // same message as the primitive ones: PermissionsString (octal with a leading
 // 0, decimal otherwise) vs Permissions, Time(time.Time) vs Seconds +
 // FractionalNanoseconds.
+// c09SizeSweep: every payload length around whatever scratch-buffer sizes an
+// encoder might use (0..4300 bytes of Data, 0..560 block sizes), with each of
+// the fields that follow the payload on the wire present: the encoding of a
+// field must not depend on where in the output buffer it lands.
+func c09SizeSweep(r *core.Run) {
+	type tail struct {
+		name string
+		set  func(m *lmsg)
+	}
+	tails := []tail{
+		{"none", func(m *lmsg) {}},
+		{"mtime-secs", func(m *lmsg) { m.HasMtime, m.Seconds = true, 5 }},
+		{"mtime-neg-nanos", func(m *lmsg) { m.HasMtime, m.Seconds, m.Nanos = true, -1234567890123, u32p(999999999) }},
+		{"mode-mtime", func(m *lmsg) { m.Mode, m.HasMtime, m.Seconds, m.Nanos = u32p(0o755), true, 1700000000, u32p(1) }},
+		{"hash-fanout", func(m *lmsg) { m.HashType, m.Fanout = u64p(0x22), u64p(256) }},
+		{"filesize-mode", func(m *lmsg) { m.FileSize, m.Mode = u64p(1<<40), u32p(0o600) }},
+	}
+	maxData, maxBS := 4300, 560
+	if r.Quick() {
+		maxData, maxBS = 2200, 280
+	}
+	n := int64(0)
+	core.ParallelFor(maxData+1+maxBS+1, workers, func(i int) {
+		for ti, tl := range tails {
+			var m lmsg
+			if i <= maxData {
+				m = lmsg{Type: 2, HasData: true, Data: bytes.Repeat([]byte{byte(i), 0xA5}, i/2+1)[:i]}
+			} else {
+				k := i - maxData - 1
+				bs := make([]uint64, k)
+				for j := range bs {
+					bs[j] = uint64(1)<<uint(7*(j%9)) + uint64(j)
+				}
+				m = lmsg{Type: 2, FileSize: u64p(uint64(k)), BlockSizes: bs}
+			}
+			tl.set(&m)
+			p := m.canonical()
+			c09CheckWire(p, true, func(sig, detail string) {
+				if len(detail) > 400 {
+					detail = detail[:400] + "…"
+				}
+				r.Violate(sig+" size-sweep "+tl.name, fmt.Sprintf("payload #%d (%d wire bytes), tail %s: %s", i, len(p), tl.name, detail), map[string]any{"wire": fmt.Sprintf("%x", p), "kind": "data"})
+			})
+			_ = ti
+			atomic.AddInt64(&n, 1)
+		}
+	})
+	r.Evaluations.Add(n)
+	r.Transitions.Add(3 * n)
+	r.Set("size_sweep_messages", n)
+}
+
 func c09BuilderRoutes(r *core.Run) {
 	build := func(f func(b *builder.Builder)) (string, string) {
 		var n data.UnixFSData
